@@ -163,6 +163,13 @@ def monitorJ (l : Line) : Option (Option String) :=
   | "jspace" => flag (C12.spaceOK doc (outOfLine l (list l "o.v"))) "space-delimited-decoding"
   | "jdisplay" => flag (C12.displayOK (str l "dtext") (outOfLine l (str l "o.v"))) "display-decoding"
   | "unseal" => some (C12.unsealOK (bytesOf l "raw").length (outOfLine l (bytesOf l "o.plain")))
+  | "wenc" =>
+    if str l "obs" != "ok" then some (some "marshal-failed") else
+    some (C12.encodeStepOK (str l "type" == "IntrospectionResponse") (obj l "reg") (obj l "custom") (obj l "o.obj") (obj l "o.custom2")
+      (str l "user") (str l "pref") (str l "o.user"))
+  | "wdec" =>
+    some (C12.decodeStepOK (str l "type" == "IntrospectionResponse") (str l "obs" == "ok") (bool l "fresh") (bool l "rt") (bool l "collide") (list l "names") (obj l "doc")
+      (obj l "o.reg2") (obj l "o.custom2") (obj l "src.reg") (obj l "src.custom"))
   | _ => none
 
 def monitorLine (l : Line) : Option String :=
